@@ -261,10 +261,26 @@ class Analysis:
         for path in paths:
             conj: List[Conj] = [frozenset()]
             last: Dict[str, ast.expr] = {}
+            nullk: Dict[str, str] = {}
             dead = False
             for (n, l) in path[:-1]:
                 if n.kind == "test" and cfgm.branch_of(l):
-                    conj = _and_all([conj, self.dnf(n.ast, cfgm.branch_of(l) == "T", fi)])
+                    d_ = self.dnf(n.ast, cfgm.branch_of(l) == "T", fi)
+                    # prune by what is known about the None-ness of locals on this path
+                    d2 = []
+                    for c_ in d_:
+                        okc = True
+                        keepc = set()
+                        for (a_, p_) in c_:
+                            if a_.startswith("none(") and a_[5:-1] in nullk:
+                                if (nullk[a_[5:-1]] == "none") != p_:
+                                    okc = False
+                                    break
+                                continue   # implied
+                            keepc.add((a_, p_))
+                        if okc:
+                            d2.append(frozenset(keepc))
+                    conj = _and_all([conj, d2]) if d2 else []
                     if not conj:
                         dead = True
                         break
@@ -282,6 +298,13 @@ class Analysis:
                                 if isinstance(x, ast.Name):
                                     last.pop(x.id, None)
                     for (nm_, val_) in pairs:
+                        nk = self.nullness(val_, fi)
+                        if nk is None and isinstance(val_, ast.Name) and val_.id in nullk:
+                            nk = nullk[val_.id]
+                        if nk is None:
+                            nullk.pop(nm_, None)
+                        else:
+                            nullk[nm_] = nk
                         # call results are not propagated (a call is an effect, and its text would hide the local's role)
                         if not calls and any(isinstance(x, ast.Call) for x in ast.walk(val_)):
                             last.pop(nm_, None)
@@ -306,6 +329,23 @@ class Analysis:
                         return nm
                 return T().visit(copy.deepcopy(x))
             val = subst(e, depth)
+
+            class FoldNone(ast.NodeTransformer):
+                def visit_Compare(self_, c):
+                    self_.generic_visit(c)
+                    if len(c.ops) == 1 and isinstance(c.ops[0], (ast.Is, ast.IsNot)) and isinstance(c.comparators[0], ast.Constant) and c.comparators[0].value is None:
+                        k = None
+                        if isinstance(c.left, ast.Name) and c.left.id in nullk:
+                            k = nullk[c.left.id]
+                        elif isinstance(c.left, ast.Constant):
+                            k = "none" if c.left.value is None else "notnone"
+                        if k is not None:
+                            return ast.copy_location(ast.Constant(value=((k == "none") == isinstance(c.ops[0], ast.Is))), c)
+                    return c
+
+                def visit_Lambda(self_, nm):
+                    return nm
+            val = FoldNone().visit(val)
             for (extra, v) in _split_ifexp(self, val, fi):
                 for c1 in conj:
                     for e2 in extra:
@@ -418,10 +458,12 @@ class Analysis:
                     return ("empty(%s)" % X, True)
                 if (isinstance(op, ast.NotEq) and k == 0) or (isinstance(op, ast.Lt) and k == 0) or (isinstance(op, ast.LtE) and k == 1):
                     return ("empty(%s)" % X, False)
-            if isinstance(op, ast.Is) and isinstance(r, ast.Constant) and r.value is None:
-                return ("none(%s)" % tx(l), True)
-            if isinstance(op, ast.IsNot) and isinstance(r, ast.Constant) and r.value is None:
-                return ("none(%s)" % tx(l), False)
+            if isinstance(op, (ast.Is, ast.IsNot)) and isinstance(r, ast.Constant) and r.value is None:
+                # `x = M.get(k)` … `x is None`  ≡  `k not in M`  (a memo whose values are never None)
+                mg = self.memo_get(l, fi, e)
+                if mg is not None:
+                    return ("in(%s,%s)" % (tx(mg[0]), tx(mg[1])), isinstance(op, ast.IsNot))
+                return ("none(%s)" % tx(l), isinstance(op, ast.Is))
             if isinstance(op, ast.Lt):
                 return ("lt(%s,%s)" % (tx(l), tx(r)), True)
             if isinstance(op, ast.Gt):
@@ -452,6 +494,64 @@ class Analysis:
         if isinstance(e, ast.Call) and isinstance(e.func, ast.Name) and e.func.id == "bool" and len(e.args) == 1:
             return self.atom(e.args[0], fi)
         return ("t(%s)" % tx(e), True)
+
+    def nullness(self, e: ast.expr, fi: Optional[FunctionInfo]) -> Optional[str]:
+        """'none' / 'notnone' when the expression's None-ness is evident (a constant, a display, a constructor call,
+        a call of a project function whose declared return type is not Optional), else None."""
+        if isinstance(e, ast.Constant):
+            return "none" if e.value is None else "notnone"
+        if isinstance(e, (ast.List, ast.Tuple, ast.Dict, ast.Set, ast.JoinedStr, ast.ListComp, ast.SetComp, ast.DictComp, ast.GeneratorExp, ast.Lambda)):
+            return "notnone"
+        if isinstance(e, ast.Call) and hasattr(e, "_module"):
+            try:
+                cs = self.res.callees(e)
+            except Exception:
+                cs = []
+            if not cs:
+                return None
+            for c in cs:
+                f = self.prog.functions.get(c)
+                if f is None:
+                    return "notnone" if c in self.prog.classes else None
+                if f.name == "__init__":
+                    continue
+                ann = f.node.returns
+                if ann is None:
+                    return None
+                t_ = ast.unparse(ann)
+                if "Optional" in t_ or "None" in t_ or "Any" in t_ or "Union" in t_:
+                    return None
+            return "notnone"
+        return None
+
+    def memo_get(self, x: ast.expr, fi: Optional[FunctionInfo], at: Optional[ast.AST] = None) -> Optional[Tuple[ast.expr, ast.expr]]:
+        """(key, memo) when x is — or is a local that holds, at `at` — the result of `memo.get(key)` on a
+        dict into which the function never stores None."""
+        v = x
+        if isinstance(x, ast.Name) and fi is not None:
+            v = self.single_def_value(fi, x.id)
+            if v is None and at is not None:
+                st = at
+                while st is not None and not isinstance(st, ast.stmt):
+                    st = getattr(st, "_parent", None)
+                if st is not None:
+                    v = self.preceding_def(st, x.id)
+        if not (isinstance(v, ast.Call) and isinstance(v.func, ast.Attribute) and v.func.attr == "get" and len(v.args) == 1 and not v.keywords):
+            return None
+        memo = v.func.value
+        if fi is not None:
+            ty = None
+            try:
+                ty = self.res.type_of(memo, fi) if hasattr(memo, "_module") else None
+            except Exception:
+                ty = None
+            if ty is not None and ty[0] != "dict":
+                return None
+            for n in walk_local(fi.node):
+                if isinstance(n, ast.Assign) and any(isinstance(t_, ast.Subscript) and norm(t_.value) == norm(memo) for t_ in n.targets) \
+                        and isinstance(n.value, ast.Constant) and n.value.value is None:
+                    return None
+        return (v.args[0], memo)
 
     def pred_body(self, call: ast.Call, fi: Optional[FunctionInfo]) -> Optional[ast.expr]:
         """If `call` is `recv.pred()` (no arguments) of a repository method whose body is a single
@@ -497,6 +597,14 @@ class Analysis:
             return _simplify(out)
         if isinstance(e, ast.UnaryOp) and isinstance(e.op, ast.Not):
             return self.dnf(e.operand, not positive, fi, inline, _depth, inline_preds, xstop)
+        # isinstance(x, (A, B))  ≡  isinstance(x, A) or isinstance(x, B)
+        if isinstance(e, ast.Call) and isinstance(e.func, ast.Name) and e.func.id == "isinstance" and len(e.args) == 2 and isinstance(e.args[1], ast.Tuple) and e.args[1].elts:
+            alts = [ast.copy_location(ast.Call(func=e.func, args=[e.args[0], t_], keywords=[]), e) for t_ in e.args[1].elts]
+            for a_ in alts:
+                for sub in ast.walk(a_):
+                    if not hasattr(sub, "_module") and hasattr(e, "_module"):
+                        sub._module = e._module  # type: ignore[attr-defined]
+            return self.dnf(ast.BoolOp(op=ast.Or(), values=alts), positive, fi, inline, _depth, inline_preds, xstop)
         if inline and isinstance(e, ast.Name) and fi is not None and _depth < 6:
             v = self.single_def_value(fi, e.id)
             if v is not None and isinstance(v, (ast.BoolOp, ast.Compare, ast.UnaryOp, ast.Call, ast.Name, ast.Attribute)):
